@@ -6,9 +6,9 @@ HARNESS = "harness/core/internal/integration_tests/c06_relay_test.go"
 
 
 def _shard(name, i, n, tiers):
-    return job(name, "core", "./internal/integration_tests/", "integration_tests", [KIT, HARNESS], "^TestVerifC06(Relay|Parallel|Churn|Boundary)$",
+    return job(name, "core", "./internal/integration_tests/", "integration_tests", [KIT, HARNESS], "^TestVerifC06(Relay|Parallel|Churn|Boundary|Hooked)$",
                ["c06-relay-%dof%d" % (i + 1, n), "c06-parallel-%dof%d" % (i + 1, n), "c06-churn-%dof%d" % (i + 1, n),
-                "c06-boundary-%dof%d" % (i + 1, n)],
+                "c06-boundary-%dof%d" % (i + 1, n), "c06-hooked-%dof%d" % (i + 1, n)],
                race=False, timeout_quick=600, timeout_thorough=3600,
                tiers=tiers, env={"VERIF_C06_SHARD": "%d/%d" % (i, n)})
 
@@ -36,7 +36,13 @@ PROP = {
              "and a starting one shows as foreign bytes; 'boundary' worlds (own part, enumerated, fast open off/on): request "
              "ADDRESS lengths and dial-error MESSAGE lengths 62, 63, 64, 65, 2047, 2048 (varint width changes, 16383/16384 "
              "capped by the 2048 limits), each relay with its own client (the same lengths are also sampled in 1/5 of the "
-             "'exact' relays / half of their failed dials); SLOW DIAL: in 1/4 of all bubble relays (and enumerated in the "
+             "'exact' relays / half of their failed dials); 'hooked' worlds (own part): the server has a RequestHook that intercepts "
+             "every relay (early accept, then hook.TCP): hook behaviour none / peek up to 600 payload bytes and put them back / "
+             "peek and rewrite the address / refuse, x dial ok / slow ok / refused / slow then refused, x quiesce, c_close_idle, "
+             "t_close_idle, x fast open; relays 0..2 of each world are fixed (refused without fast open, slow-then-refused with "
+             "fast open, hook refusal). Oracles there: client reads a prefix of what the target wrote -- not one byte when no "
+             "target ever existed -- target gets (putback first) a prefix of what the client wrote, completeness shapes (i)/(ii); "
+             "the accounting clause is not applied to hooked connections (excluded by the statement); SLOW DIAL: in 1/4 of all bubble relays (and enumerated in the "
              "boundary worlds) the fake Outbound.TCP answers only after 50..500 ms, and with fast open the client first issues "
              "0..2 Reads whose deadline expires while the server is still dialling, then clears the deadline -- later Reads "
              "must deliver exactly the target's stream (prefix oracle) or the DialError; Client.TCP and the first fast-open Read are bounded by 300 s of "
